@@ -8,6 +8,9 @@ PRELUDE = r"""
 #include "cprelude.h"
 #include "isa.h"
 bool verif_thrown;
+"""
+
+GHOST_IO = r"""
 /* --- ghost I/O: stream operations record one event; get() returns the harness's input oracle --- */
 enum { OPEN_out = 1, OPEN_in = 2 };
 int g_io_calls, g_ev_kind, g_ev_file, g_opens, g_open_idx, g_open_mode, g_open_name; bool g_ev_to_file; uint8_t g_ev_byte; int g_oracle_in;
@@ -19,6 +22,9 @@ int g_io_calls, g_ev_kind, g_ev_file, g_opens, g_open_idx, g_open_mode, g_open_n
 static inline int EV_STDIN_GET(void) { g_io_calls++; g_ev_kind = EV_READ; g_ev_to_file = false; return g_oracle_in; }
 static inline int EV_FILE_GET(size_t i) { __CPROVER_assert(i < 8, "file index below 8"); g_io_calls++; g_ev_kind = EV_READ; g_ev_to_file = true; g_ev_file = (int)i; return g_oracle_in; }
 """
+
+PRELUDE = PRELUDE + GHOST_IO
+
 
 ACCESSORS = r"""
 /* --- the one flat memory array: symbolic-size object, every access asserted in range --- */
